@@ -1093,7 +1093,7 @@ impl FixtureDatabase {
                         if decorators::is_usefixtures_decorator(decorator) {
                             return Some(CompletionContext::UsefixturesDecorator);
                         }
-                        if decorators::is_parametrize_decorator(decorator) {
+                        if decorators::is_indirect_parametrize_decorator(decorator) {
                             return Some(CompletionContext::ParametrizeIndirect);
                         }
                     }
